@@ -37,7 +37,10 @@ def rand_settings(r, p_none=2):
     return ','.join(dict.fromkeys(r.choice(SETTING_POOL) for _ in range(r.range(1, 3))))
 
 
-TRS_STRS = ['154n97w14', 'XXXzXXXzXX', '___z___z__', '154n97w', '1n2w01', 'T154N-R97W', '', '154N97W14', '2n3w05', '154n97w101']
+TRS_STRS = ['154n97w14', 'XXXzXXXzXX', '___z___z__', '154n97w', '1n2w01', 'T154N-R97W', '', '154N97W14', '2n3w05', '154n97w101',
+            # keys that differ from a valid one only by padding / case: not in the standard form (error TRS), and they must not
+            # share a cache slot with the valid string
+            '154n97w14\n', ' 154n97w14', '154n97w14 ', '\t2n3w05', '2N3W05\n', '1n2w01\r\n']
 
 
 def rand_noise(r, next_id):
@@ -51,11 +54,11 @@ def rand_noise(r, next_id):
         elif k == 1:
             ops.append(('cache', r.choice(['on', 'off', 'clear'])))
         elif k == 2:
-            ops.append(('warm', r.choice(TRS_STRS[:9] + ['154n97w14', '2n3w05'])))
+            ops.append(('warm', r.choice(TRS_STRS[:9] + TRS_STRS[10:] + ['154n97w14', '2n3w05'])))
         elif k == 3:
             ops.append(('todict', r.choice(TRS_STRS)))
         elif k == 4:
-            ops.append(('todict_obj', r.choice(TRS_STRS[:4] + ['154n97w14', '2n3w05', '154n97w15'])))
+            ops.append(('todict_obj', r.choice(TRS_STRS[:4] + TRS_STRS[10:] + ['154n97w14', '2n3w05', '154n97w15'])))
         elif k in (5, 6, 7):
             i = next_id[0]
             next_id[0] += 1
